@@ -478,8 +478,8 @@ impl<R: BufRead + Seek> WebPDecoder<R> {
                 // hashmap so that we can read them later.
                 if let Some(range) = self.chunks.get(&WebPRiffChunk::ANMF).cloned() {
                     let mut position = range.start + 16;
-                    self.r.seek(io::SeekFrom::Start(position))?;
                     for _ in 0..2 {
+                        self.r.seek(io::SeekFrom::Start(position))?;
                         let (subchunk, subchunk_size, subchunk_size_rounded) =
                             read_chunk_header(&mut self.r)?;
                         let subrange = position + 8..position + 8 + subchunk_size;
